@@ -47,6 +47,9 @@ const (
 var numNames = []string{"n1", "n2", "n3", "n4", "n1", "n2", "fz", "fnz", "名前", "x\u0662"}
 var strNames = []string{"s1", "s2", "s3", "cafe\u0301"}
 
+var regexpPatterns = []string{"'^a'", "'[0-9]+'", "'l+o'", "'.*'", "'^[A-Z]'", "'b$'", "'a|b'", "'^$'", "'[a-c]+'", "'wor'", "'\\\\d'", "'^.{3}$'", "'x?y'", "'(ab)+'", "'[^a]'", "'o w'",
+	"'^h'", "'d$'", "'l{2}'", "'A'", "'[0-9]{2}'", "'^ '", "' $'", "'小'", "'[,]'", "'e.l'", "'^.$'", "'3'", "'[.]5'", "'q+'"}
+
 // texts that fail in the scanner or parser in many different ways (every
 // diagnostic message of the library is reachable from one of them)
 var brokenTexts = []string{"2_", "[1a]", "1__0", "[2_, 1]", "1_", "0.5_1", "'abc", "\"x\\", "1e", "1e+", "[1,, 2]", "f_id(1,)", "b1 ? 1", "b1 ? 1 :", "(1", "1 2", "(1 2",
@@ -74,7 +77,14 @@ func genDeep(s *Stream, cfg genCfg) string {
 	leaf := func() string {
 		return []string{"1", "n1", "2.5", "n2", "o1.a", "$a", "7", "n3"}[s.Intn(8)]
 	}
-	switch s.Intn(5) {
+	switch s.Intn(6) {
+	case 5: // many calls of one builtin with many different constant arguments
+		k := 8 + s.Intn(20)
+		parts := make([]string, k)
+		for i := range parts {
+			parts[i] = "regexp(" + []string{"s1", "s2", "o1.b", "'hello world'"}[s.Intn(4)] + ", " + regexpPatterns[s.Intn(len(regexpPatterns))] + ")"
+		}
+		return "[" + strings.Join(parts, ", ") + "]"
 	case 0, 1:
 		op := []string{" + ", " + ", " - ", " * ", " || "}[s.Intn(5)]
 		parts := make([]string, n)
@@ -229,6 +239,9 @@ func (g *gen) num(d int, leaf bool) string {
 		}
 		return g.numLit()
 	case 19:
+		if g.s.Intn(2) == 0 { // spread of an array literal
+			return "max([" + e(tNum) + ", " + g.numLit() + "]...)"
+		}
 		return "max(an1...)"
 	case 20:
 		return "st1.N"
@@ -288,6 +301,9 @@ func (g *gen) str(d int, leaf bool) string {
 		return g.strLit()
 	case 14:
 		if g.cfg.hostFns {
+			if g.s.Intn(2) == 0 {
+				return "f_cat(" + g.strLit() + ", [" + g.strLit() + "]...)"
+			}
 			return "f_cat(as1...)"
 		}
 		return g.strLit()
@@ -319,7 +335,7 @@ func (g *gen) boolean(d int, leaf bool) string {
 	case 7:
 		return "includes(" + g.pick([]string{"as1", "['a', 'b']", "[s1, s2]"}) + ", " + e(tStr) + ")"
 	case 8:
-		return "regexp(" + e(tStr) + ", " + g.pick([]string{"'^a'", "'[0-9]+'", "'l+o'", "'.*'"}) + ")"
+		return "regexp(" + e(tStr) + ", " + g.pick(regexpPatterns) + ")"
 	case 9:
 		return e(tBool) + " && " + e(tBool)
 	case 10:
